@@ -652,7 +652,8 @@ def _case_hds(case, ctx):
     _cmp(ctx, d, "cluster_size", s.cluster_size, spc * 512)
     _cmp(ctx, d, "header.m_Sectors", s.header.m_Sectors, spc)
     _cmp(ctx, d, "header.m_Size", s.header.m_Size, n)
-    _cmp(ctx, d, "in_use", s.in_use, False)
+    stored_inuse, = struct.unpack_from("<I", img.sparse(log=False).peek_at(44, 4))
+    _cmp(ctx, d, "in_use", s.in_use, stored_inuse == 0x746F6E59)
     return d
 
 
